@@ -172,6 +172,9 @@ where
     /// Initialize the radio for LoRa physical layer communications
     pub async fn init(&mut self) -> Result<(), RadioError> {
         self.cold_start = true;
+        // Until the sequence below has succeeded nothing is known about the chip: if it fails
+        // part-way the driver must not keep believing in the mode it recorded before.
+        self.radio_mode = RadioMode::Sleep;
         self.radio_kind.reset(&mut self.delay).await?;
         self.radio_kind.ensure_ready(self.radio_mode).await?;
         self.radio_kind.set_standby().await?;
